@@ -272,6 +272,7 @@ class Run:
         self.results = []
         self.crash = None
         self.control_errors = []      # (order, message) of every refusal by a control
+        self.settled_with = {}        # id(order) -> {(dead-heat count, runner status)} it was settled with, per close
         self._last_error = None
         self.clock_ok = True
 
@@ -616,6 +617,11 @@ class Run:
                 for mb in event.event:
                     rtxt = ";".join("%d=%s" % (sidx, ",".join(rs) if rs else ".") for sidx, rs in run.results) or "."
                     run.out.append(((mb.market_id, mb.publish_time_epoch), "R %s %s" % (rtxt, run.dump())))
+                    if mb.status == "CLOSED":
+                        # the settlement inputs every order was given at THIS close (a market may be closed again)
+                        for o in run.orders:
+                            if o.market_id == mb.market_id:
+                                run.settled_with.setdefault(id(o), set()).add((o.number_of_dead_heat_winners or 1, o.runner_status))
                     h = run.hooks.get("after_update")
                     if h:
                         h(run, mb)
@@ -664,12 +670,19 @@ def tokens_close(a, b, tol=Fraction(2, 10**6)):
     return True
 
 
-def profit_preimage(o):
-    """exact value that SimulatedOrder.profit rounds (None when nothing is rounded)"""
+def profit_preimage(o, n=None, status=None):
+    """exact value that SimulatedOrder.profit rounds (None when nothing is rounded); `n` / `status` override the settlement
+    inputs the order carries now (a market closed more than once was settled on other inputs at the earlier close)"""
     s = o.simulated
     sm, ap = frac(s.size_matched), frac(s.average_price_matched)
-    n = o.number_of_dead_heat_winners or 1
+    n = n or o.number_of_dead_heat_winners or 1
     side = 1 if o.side == "BACK" else -1
+    if status is not None:
+        class _O:       # the same order under the other result
+            pass
+        o2 = _O()
+        o2.market_type, o2.each_way_divisor, o2.runner_status = o.market_type, o.each_way_divisor, status
+        o = o2
     if o.market_type == "EACH_WAY":
         d = frac(o.each_way_divisor or 1)
         win, place = sm * (ap - 1), sm * ((ap - 1) / d)
@@ -761,8 +774,9 @@ def tie_explains(sc, a, b, run=None):
             if run is not None:
                 for o in run.orders:
                     if market_num(o.market_id) == int(fx[1]) and frac(o.simulated.size_matched) > 0:
-                        pre = profit_preimage(o)
-                        if pre is not None and common.is_tie2(pre):
+                        # (every result the market may have been closed with: a market can be closed again with an amended result)
+                        pres = [profit_preimage(o)] + [profit_preimage(o, n=k, status=st) for (k, st) in getattr(run, "settled_with", {}).get(id(o), ())]
+                        if any(pre is not None and common.is_tie2(pre) for pre in pres):
                             nt += 1
             prof_ok = com_ok = False
             for (pa, ca) in _fracs(fx[3:-1]):
